@@ -1152,6 +1152,11 @@ pub fn parse(lex_tokens: &Vec<LexerToken>) -> Result<ParseResult, CompilerError>
                                 let l = left_node.get_left();
                                 let token = left_node.get_lex_token();
 
+                                // the dropped separator no longer takes part in the tree
+                                left_node.parent = None;
+                                left_node.left = None;
+                                left_node.right = None;
+
                                 // left should be the root of the nested expression
                                 match l {
                                     None => (), // need to test and see if this is reachable
